@@ -33,9 +33,16 @@ import (
 	"github.com/segmentio/kafka-go/protocol"
 	"github.com/segmentio/kafka-go/protocol/apiversions"
 	"github.com/segmentio/kafka-go/protocol/fetch"
+	"github.com/segmentio/kafka-go/protocol/findcoordinator"
+	"github.com/segmentio/kafka-go/protocol/heartbeat"
+	"github.com/segmentio/kafka-go/protocol/joingroup"
+	"github.com/segmentio/kafka-go/protocol/leavegroup"
 	"github.com/segmentio/kafka-go/protocol/listoffsets"
 	meta "github.com/segmentio/kafka-go/protocol/metadata"
+	"github.com/segmentio/kafka-go/protocol/offsetcommit"
+	"github.com/segmentio/kafka-go/protocol/offsetfetch"
 	"github.com/segmentio/kafka-go/protocol/produce"
+	"github.com/segmentio/kafka-go/protocol/syncgroup"
 )
 
 var calls int64
@@ -116,6 +123,9 @@ type broker struct {
 	mu    sync.Mutex
 	logs  map[int32][][]byte
 	conns int64
+	// single-member consumer group state
+	generation int32
+	committed  map[int32]int64
 }
 
 func newBroker(topic string, parts, preload int) *broker {
@@ -151,7 +161,75 @@ func (b *broker) serve(c net.Conn) {
 				{ApiKey: int16(protocol.ListOffsets), MinVersion: 1, MaxVersion: 1},
 				{ApiKey: int16(protocol.Metadata), MinVersion: 0, MaxVersion: 6},
 				{ApiKey: int16(protocol.ApiVersions), MinVersion: 0, MaxVersion: 0},
+				{ApiKey: int16(protocol.OffsetCommit), MinVersion: 0, MaxVersion: 2},
+				{ApiKey: int16(protocol.OffsetFetch), MinVersion: 0, MaxVersion: 1},
+				{ApiKey: int16(protocol.FindCoordinator), MinVersion: 0, MaxVersion: 0},
+				{ApiKey: int16(protocol.JoinGroup), MinVersion: 0, MaxVersion: 1},
+				{ApiKey: int16(protocol.Heartbeat), MinVersion: 0, MaxVersion: 0},
+				{ApiKey: int16(protocol.LeaveGroup), MinVersion: 0, MaxVersion: 0},
+				{ApiKey: int16(protocol.SyncGroup), MinVersion: 0, MaxVersion: 0},
 			}}
+		case *findcoordinator.Request:
+			resp = &findcoordinator.Response{NodeID: 1, Host: "fake", Port: 9092}
+		case *joingroup.Request:
+			b.mu.Lock()
+			b.generation++
+			gen := b.generation
+			b.mu.Unlock()
+			member := r.MemberID
+			if member == "" {
+				member = "member-1"
+			}
+			out := &joingroup.Response{GenerationID: gen, LeaderID: member, MemberID: member}
+			if len(r.Protocols) > 0 {
+				out.ProtocolName = r.Protocols[0].Name
+				out.Members = []joingroup.ResponseMember{{MemberID: member, Metadata: r.Protocols[0].Metadata}}
+			}
+			resp = out
+		case *syncgroup.Request:
+			out := &syncgroup.Response{}
+			for _, a := range r.Assignments {
+				if a.MemberID == r.MemberID {
+					out.Assignments = a.Assignment
+				}
+			}
+			resp = out
+		case *heartbeat.Request:
+			resp = &heartbeat.Response{}
+		case *leavegroup.Request:
+			resp = &leavegroup.Response{}
+		case *offsetfetch.Request:
+			out := &offsetfetch.Response{}
+			for _, t := range r.Topics {
+				rt := offsetfetch.ResponseTopic{Name: t.Name}
+				for _, p := range t.PartitionIndexes {
+					b.mu.Lock()
+					off, okc := b.committed[p]
+					b.mu.Unlock()
+					if !okc {
+						off = -1
+					}
+					rt.Partitions = append(rt.Partitions, offsetfetch.ResponsePartition{PartitionIndex: p, CommittedOffset: off})
+				}
+				out.Topics = append(out.Topics, rt)
+			}
+			resp = out
+		case *offsetcommit.Request:
+			out := &offsetcommit.Response{}
+			for _, t := range r.Topics {
+				rt := offsetcommit.ResponseTopic{Name: t.Name}
+				for _, p := range t.Partitions {
+					b.mu.Lock()
+					if b.committed == nil {
+						b.committed = map[int32]int64{}
+					}
+					b.committed[p.PartitionIndex] = p.CommittedOffset
+					b.mu.Unlock()
+					rt.Partitions = append(rt.Partitions, offsetcommit.ResponsePartition{PartitionIndex: p.PartitionIndex})
+				}
+				out.Topics = append(out.Topics, rt)
+			}
+			resp = out
 		case *meta.Request:
 			var ps []meta.ResponsePartition
 			for p := 0; p < b.parts; p++ {
@@ -436,6 +514,48 @@ func scenReader(rng *rand.Rand, rounds int) {
 	}
 }
 
+// Reader in consumer-group mode against the fake broker acting as a single-member group coordinator:
+// subscribe/unsubscribe, commit loop, CommitMessages, Close.
+func scenReaderGroup(rng *rand.Rand, rounds int) {
+	for i := 0; i < rounds; i++ {
+		b := newBroker("t", 2, 5+rng.Intn(5))
+		d := &kafka.Dialer{DialFunc: func(ctx context.Context, network, address string) (net.Conn, error) { return b.dial(), nil }}
+		commitEvery := time.Duration(rng.Intn(2)) * 5 * time.Millisecond
+		r := kafka.NewReader(kafka.ReaderConfig{Brokers: []string{"fake:9092"}, GroupID: "g", Topic: "t", Dialer: d, MinBytes: 1, MaxBytes: 1 << 20,
+			MaxWait: 20 * time.Millisecond, ReadBackoffMin: time.Millisecond, ReadBackoffMax: 2 * time.Millisecond, QueueCapacity: 1 + rng.Intn(4),
+			HeartbeatInterval: 10 * time.Millisecond, CommitInterval: commitEvery, JoinGroupBackoff: 5 * time.Millisecond,
+			SessionTimeout: 2 * time.Second, RebalanceTimeout: 2 * time.Second, PartitionWatchInterval: 20 * time.Millisecond, WatchPartitionChanges: rng.Intn(2) == 0})
+		closeDelay := time.Duration(5+rng.Intn(30)) * time.Millisecond
+		ops := []op{
+			{"Reader.FetchMessage+CommitMessages", func() {
+				for k := 0; k < 3; k++ {
+					ctx, cancel := context.WithTimeout(context.Background(), 300*time.Millisecond)
+					m, err := r.FetchMessage(ctx)
+					ok("Reader.FetchMessage/group", err)
+					if err == nil {
+						ok("Reader.CommitMessages", r.CommitMessages(ctx, m))
+					}
+					cancel()
+				}
+			}},
+			{"Reader.ReadMessage", func() {
+				ctx, cancel := context.WithTimeout(context.Background(), 300*time.Millisecond)
+				_, err := r.ReadMessage(ctx)
+				ok("Reader.ReadMessage/group", err)
+				cancel()
+			}},
+			{"Reader.Stats", func() { r.Stats(); r.Offset(); r.Lag(); r.SetOffset(3); r.Config() }},
+			{"Reader.Close", func() { time.Sleep(closeDelay); r.Close() }},
+		}
+		if rng.Intn(2) == 0 {
+			runRound(rng, "readergroup", i, ops, 4, 7, "Reader.Close", "Reader.FetchMessage+CommitMessages")
+		} else {
+			runRound(rng, "readergroup", i, ops[:3], 4, 7, "Reader.FetchMessage+CommitMessages")
+		}
+		r.Close()
+	}
+}
+
 // Conn + Batch over net.Pipe
 func scenConn(rng *rand.Rand, rounds int) {
 	for i := 0; i < rounds; i++ {
@@ -549,7 +669,7 @@ func scenTransport(rng *rand.Rand, rounds int) {
 
 var scenarios = map[string]func(*rand.Rand, int){
 	"balancers": scenBalancers, "writer": scenWriter, "codecs": scenCodecs, "readerfront": scenReaderFront,
-	"reader": scenReader, "conn": scenConn, "transport": scenTransport,
+	"reader": scenReader, "readergroup": scenReaderGroup, "conn": scenConn, "transport": scenTransport,
 }
 
 func main() {
